@@ -46,6 +46,8 @@ func litOne(src string, env *object.Env) (r, k string) {
 		return fmt.Sprintf("f:%016x", math.Float64bits(v.Value)), ""
 	case *object.PanStr:
 		return "s:" + hex.EncodeToString([]byte(v.Value)), ""
+	case *object.PanBool:
+		return "o:BoolType:" + v.Inspect(), ""
 	case nil:
 		return "o:GoNil", ""
 	}
@@ -86,7 +88,15 @@ func cmdLitval() {
 			r1, _ := litOne(n+" := 1; "+n, env)
 			r2, _ := litOne("{"+n+": 1}."+n, env)
 			r3, _ := litOne("'"+n, env)
+			// the name is listed by keys (private names with private?: true) and is a symbol
+			r4, _ := litOne("{"+n+": 1}.keys(private?: true).has?('"+n+")", env)
+			r5, _ := litOne("{"+n+": 1}.keys.has?('"+n+")", env)
+			r6, _ := litOne("'"+n+".sym?", env)
 			emit(map[string]interface{}{
+				"listed":  r4 == "o:BoolType:true",
+				"public":  r5 == "o:BoolType:true",
+				"symp":    r6 == "o:BoolType:true",
+				"rawlist": []string{r4, r5, r6},
 				"var":  r1 == "i:1",
 				"prop": r2 == "i:1",
 				"sym":  r3 == "s:"+hex.EncodeToString([]byte(n)),
